@@ -187,3 +187,11 @@ def c01_generate_commits_every_atr(ctx, v):
     rebroadcast commitment — every ATR-typed transaction must be folded into it (see C13)."""
     from . import obl_c13
     obl_c13.c13_generate_commits_every_atr(ctx, v)
+
+
+def c01_unwind_full_before_revert(ctx, v):
+    """outputs created on an abandoned fork must stop being spendable: unwind_chain reverts a
+    block's transactions only after the block has its transactions in memory (a pruned block
+    reverts nothing) — same obligation as C03 c03_unwind_full_before_revert."""
+    from . import obl_c03
+    obl_c03.c03_unwind_full_before_revert(ctx, v)
